@@ -22,12 +22,12 @@ MUTANTS = [
  ('cacg_update_drops_D', D + 'complex_angular_central_gaussian.py', "        covariance = D * np.einsum(", "        covariance = 1 * np.einsum(", ['C08']),
  ('cacg_eigenvalues_not_inverted', D + 'complex_angular_central_gaussian.py', "                    1 / self.covariance_eigenvalues,", "                    self.covariance_eigenvalues,", ['C03', 'C07', 'C02']),
  ('watson_sign', D + 'complex_watson.py', "        result -= self.log_norm()[..., None]\n        return result\n\n    @staticmethod\n    def log_norm_low", "        result += self.log_norm()[..., None]\n        return result\n\n    @staticmethod\n    def log_norm_low", ['C07', 'C01']),
- ('watson_factorial_dropped', D + 'complex_watson.py', "            2 * np.pi ** dimension / math.factorial(dimension - 1)\n        )\n        return np.log(norm)", "            2 * np.pi ** dimension\n        )\n        return np.log(norm)", ['C07']),
+ ('watson_factorial_dropped', D + 'complex_watson.py', "                2 * np.pi ** dimension / math.factorial(dimension - 1)\n            )\n            log_norm = np.log(norm)", "                2 * np.pi ** dimension\n            )\n            log_norm = np.log(norm)", ['C07']),
  ('vmf_bessel_order', D + 'von_mises_fisher.py', "            + np.log(ive(D / 2 - 1, self.concentration))", "            + np.log(ive(D / 2, self.concentration))", ['C07']),
  ('cwmm_predict_no_normalisation', D + 'cwmm.py', "        assert np.iscomplexobj(y), y.dtype\n        y = y / np.maximum(\n            np.linalg.norm(y, axis=-1, keepdims=True), np.finfo(y.dtype).tiny\n        )\n        return self._predict(y)", "        assert np.iscomplexobj(y), y.dtype\n        return self._predict(y)", ['C04']),
  ('watson_real_part_only', D + 'complex_watson.py', "        result = result.real ** 2 + result.imag ** 2\n", "        result = result.real ** 2\n", ['C04', 'C07']),
  ('weights_first_class_special', D + 'mixture_model_utils.py', "    return weight\n\n\ndef _estimate_mixture_weight_with_dirichlet", "    weight = np.array(weight)\n    weight[..., 0, :] = weight[..., 0, :] * (1 + 1e-3)\n    return weight\n\n\ndef _estimate_mixture_weight_with_dirichlet", ['C05', 'C08']),
- ('saliency_dropped_from_denominator', D + 'gaussian.py', "            denominator = np.maximum(\n                np.einsum(\"...n->...\", saliency),\n                np.finfo(y.dtype).tiny\n            )", "            denominator = np.array(y.shape[-2], dtype=float) + 0 * np.einsum(\"...n->...\", saliency)", ['C08']),
+ ('saliency_dropped_from_denominator', D + 'gaussian.py', "            denominator = np.maximum(\n                np.sum(saliency, axis=-1),\n                np.finfo(y.dtype).tiny\n            )", "            denominator = np.array(y.shape[-2], dtype=float) + 0 * np.sum(saliency, axis=-1)", ['C08']),
  ('vmf_rbar_squared', D + 'von_mises_fisher.py', "        concentration = (r_bar * D - r_bar ** 3) / (1 - r_bar ** 2)", "        concentration = (r_bar * D - r_bar ** 2) / (1 - r_bar ** 2)", ['C08']),
  ('psd_conj_other_factor', E + 'beamformer.py', "            psd = np.einsum(\n                '...kt,...dt,...et->...kde',\n                mask,\n                observation,\n                observation.conj()\n            )", "            psd = np.einsum(\n                '...kt,...dt,...et->...kde',\n                mask,\n                observation.conj(),\n                observation\n            )", ['C10']),
  ('psd_divide_by_T', E + 'beamformer.py', "            mask /= np.maximum(\n                np.sum(mask, axis=time_dim, keepdims=True),\n                1e-10,\n            )", "            mask /= mask.shape[time_dim]", ['C10']),
